@@ -1,16 +1,43 @@
 (* C07 — identity hashes and addresses are pure functions of the identity's wire bytes.
    SHA-256 is external: in the model the hash is an input of the address function. *)
 From Model Require Import Bytes Prim Tables Cert KAC Base Addr.
-From Proofs Require Import AddrProofs.
+From Gen Require Import Consts.
+From Proofs Require Import AddrProofs BaseRT AddrRT.
 Open Scope N_scope.
 
 Theorem C07_equal_iff_same_serialisation : forall a b,
   dest_equals a b = true <-> exists x, kac_bytes a = Ok x /\ kac_bytes b = Ok x.
 Proof. exact dest_equals_iff. Qed.
 Print Assumptions C07_equal_iff_same_serialisation.
-(* the address depends on the identity only through the hash of its bytes *)
-Theorem C07_address_is_function_of_hash : forall h1 h2, h1 = h2 -> base32_address h1 = base32_address h2.
-Proof. intros h1 h2 ->. reflexivity. Qed.
+(* the base32 address of a 32-byte hash: unpadded I2P base32 of the hash followed by the
+   suffix, 60 characters, and it decodes back to the hash — so it is an injective function of
+   the hash: any change of the hash changes the address *)
+Theorem C07_address_is_unpadded_base32_plus_suffix : forall h, wf h ->
+  base32_address h = b32_encode false h ++ s_destination_I2PBase32Suffix.
+Proof. exact address_is_unpadded_base32. Qed.
+Theorem C07_address_length : forall h, wf h -> length h = 32%nat -> length (base32_address h) = 60%nat.
+Proof. exact address_length. Qed.
+Theorem C07_address_decodes_to_hash : forall h, wf h -> length h = 32%nat ->
+  b32_decode_nopad (firstn 52 (base32_address h)) = Ok h /\ skipn 52 (base32_address h) = s_destination_I2PBase32Suffix.
+Proof. exact address_decodes. Qed.
+Theorem C07_address_injective : forall h1 h2, wf h1 -> wf h2 -> base32_address h1 = base32_address h2 -> h1 = h2.
+Proof. exact address_injective. Qed.
+Print Assumptions C07_address_injective.
+(* the base64 form of a parsed identity decodes back to exactly the bytes the parser consumed *)
+Theorem C07_base64_decodes_to_wire_bytes : forall x k r, wf x -> read_keys_and_cert x = Ok (k, r) ->
+  exists b s, kac_bytes k = Ok b /\ b ++ r = x /\ dest_base64 k = Ok s /\ b64_decode s = Ok b.
+Proof. exact base64_of_parsed_identity. Qed.
+Theorem C07_base64_injective : forall b1 b2, wf b1 -> wf b2 -> b64_encode b1 = b64_encode b2 -> b1 = b2.
+Proof. exact base64_injective. Qed.
+(* two accepted identities serialise equally exactly when their consumed wire bytes are equal:
+   changing any key, padding or certificate byte changes the serialisation, hence (SHA-256
+   collisions aside — the hash is external) the hash, and by injectivity the address *)
+Theorem C07_serialisation_is_the_consumed_bytes : forall x1 x2 k1 k2 r1 r2 b1 b2, wf x1 -> wf x2 ->
+  read_keys_and_cert x1 = Ok (k1, r1) -> read_keys_and_cert x2 = Ok (k2, r2) ->
+  kac_bytes k1 = Ok b1 -> kac_bytes k2 = Ok b2 ->
+  (b1 = b2 <-> firstn (length x1 - length r1) x1 = firstn (length x2 - length r2) x2).
+Proof. exact distinct_wire_distinct_bytes. Qed.
+Print Assumptions C07_serialisation_is_the_consumed_bytes.
 Theorem C07_base64_is_function_of_bytes : forall a b x, kac_bytes a = Ok x -> kac_bytes b = Ok x -> dest_base64 a = dest_base64 b.
 Proof. intros a b x Ha Hb. unfold dest_base64. rewrite Ha, Hb. reflexivity. Qed.
 Example C07_nonvacuous_address_length : length (base32_address (repeatN 171 32)) = 60%nat.
